@@ -7,6 +7,7 @@
 """
 import sys, os, json, subprocess, shutil, glob, time
 ROOT = os.path.dirname(os.path.dirname(os.path.abspath(__file__)))
+REPO = os.environ.get("VERIF_REPO", "/repo")  # the checks honour the same variable
 ENV = dict(os.environ, GOFLAGS="-mod=mod", GOPROXY="off", GOSUMDB="off", GOTOOLCHAIN="local")
 
 
@@ -59,7 +60,7 @@ def verify(seed, wt):
 def reverify(ids):
     """fresh scratch worktree; per seed: apply patch.diff, verify, clean"""
     wt = "/tmp/wt-reverify-%d" % os.getpid()
-    rc, out = sh("git -C /repo worktree add --detach %s HEAD" % wt)
+    rc, out = sh("git -C %s worktree add --detach %s HEAD" % (REPO, wt))
     try:
         for sid in ids:
             d = os.path.join(ROOT, "seeded", sid)
@@ -72,19 +73,19 @@ def reverify(ids):
             verify(d, wt)
             sh("git checkout -- . && git clean -fdq", cwd=wt)
     finally:
-        sh("git -C /repo worktree remove --force %s" % wt)
+        sh("git -C %s worktree remove --force %s" % (REPO, wt))
 
 
 def run(sid, props):
     d = os.path.join(ROOT, "seeded", sid)
     meta = json.load(open(os.path.join(d, "meta.json")))
     props = props or meta.get("checks", [meta["property"]])
-    rc, out = sh("git -C /repo status --porcelain")
+    rc, out = sh("git -C %s status --porcelain" % REPO)
     if out.strip():
         print("refusing: /repo has local changes"); return 1
     bak = os.path.join(ROOT, ".work", "evidence-bak-%d" % os.getpid())
     shutil.rmtree(bak, ignore_errors=True); shutil.copytree(os.path.join(ROOT, "evidence"), bak)
-    rc, out = sh("git -C /repo apply %s" % os.path.join(d, "patch.diff"))
+    rc, out = sh("git -C %s apply %s" % (REPO, os.path.join(d, "patch.diff")))
     if rc != 0:
         print("patch does not apply:", out); return 1
     results = {}
@@ -99,9 +100,9 @@ def run(sid, props):
             for l in detail:
                 print("    ", l[:300])
     finally:
-        sh("git -C /repo checkout -- .")
+        sh("git -C %s checkout -- ." % REPO)
         # the source-derived Lean files were regenerated from the changed tree: put them back
-        sh("./.work/tr random /repo lean/Chihaya/Gen/Random.lean && ./.work/tr validate /repo lean/Chihaya/Gen/Validate.lean", cwd=ROOT)
+        sh("./.work/tr random %s lean/Chihaya/Gen/Random.lean && ./.work/tr validate %s lean/Chihaya/Gen/Validate.lean" % (REPO, REPO), cwd=ROOT)
     meta.setdefault("runs", []).append(dict(at=time.strftime("%Y-%m-%dT%H:%M:%SZ", time.gmtime()), results=results))
     meta["detected_by"] = sorted({p for r in meta["runs"] for p, v in r["results"].items() if v["detected"]})
     json.dump(meta, open(os.path.join(d, "meta.json"), "w"), indent=1)
